@@ -316,13 +316,40 @@ pub fn decompress(
                     ))),
                 ))
             })? as usize;
+            // The declared size comes from the wire and is what gets allocated:
+            // refuse sizes that the input cannot possibly decompress to
+            // (an LZ4 block expands by less than a factor of 256).
+            if uncomp_len > comp_body.len().saturating_mul(256) {
+                return Err(FrameBodyExtensionsParseError::Lz4DecompressError(Arc::new(
+                    LowLevelDeserializationError::IoError(Arc::new(std::io::Error::new(
+                        std::io::ErrorKind::InvalidData,
+                        "lz4 frame body declares an uncompressed size that its data cannot expand to",
+                    ))),
+                )));
+            }
             let uncomp_body = lz4_flex::decompress(comp_body, uncomp_len)
                 .map_err(|err| FrameBodyExtensionsParseError::Lz4DecompressError(Arc::new(err)))?;
             Ok(uncomp_body)
         }
-        Compression::Snappy => snap::raw::Decoder::new()
-            .decompress_vec(comp_body)
-            .map_err(|err| FrameBodyExtensionsParseError::SnapDecompressError(Arc::new(err))),
+        Compression::Snappy => {
+            // Same for Snappy: the declared size (a varint prefix) is what gets
+            // allocated; a Snappy stream expands by less than a factor of 64.
+            let declared_len = snap::raw::decompress_len(comp_body)
+                .map_err(|err| FrameBodyExtensionsParseError::SnapDecompressError(Arc::new(err)))?;
+            if declared_len > comp_body.len().saturating_mul(64) {
+                return Err(FrameBodyExtensionsParseError::SnapDecompressError(
+                    Arc::new(LowLevelDeserializationError::IoError(Arc::new(
+                        std::io::Error::new(
+                            std::io::ErrorKind::InvalidData,
+                            "snappy frame body declares an uncompressed size that its data cannot expand to",
+                        ),
+                    ))),
+                ));
+            }
+            snap::raw::Decoder::new()
+                .decompress_vec(comp_body)
+                .map_err(|err| FrameBodyExtensionsParseError::SnapDecompressError(Arc::new(err)))
+        }
     }
 }
 
